@@ -547,10 +547,20 @@ pub struct BufReport {
     pub twice: Vec<usize>,
     pub holes: usize,
     pub returned_some: bool,
+    /// the library refused the write (clean panic out of `write(..).unwrap()`)
+    pub refused: Option<String>,
+    /// number of items of the series (= length of the lazy iterator)
+    pub series: usize,
 }
 
-fn buf_report(u: SimUninit<i32>, returned_some: bool) -> BufReport {
+fn buf_report(u: SimUninit<i32>, res: Result<bool, String>, series: usize) -> BufReport {
+    let (returned_some, refused) = match res {
+        Ok(b) => (b, None),
+        Err(m) => (false, Some(m)),
+    };
     BufReport {
+        refused,
+        series,
         len: u.slots.len(),
         holes: u.slots.iter().filter(|s| s.is_none()).count(),
         log: u.log,
@@ -683,6 +693,7 @@ pub fn check_roll(r: &Roll) -> (Vec<Violation>, RunStats) {
     let _ = sim_log_take();
     st.executions += 1;
     let (driver, w) = (r.driver, r.window);
+    let buf_delta = r.buf_delta;
     let backend = r.backend.clone();
     // the second series of the two-series drivers: same values, possibly shorter or longer.
     // A different length is only used where the library reads the second series through
@@ -721,17 +732,23 @@ pub fn check_roll(r: &Roll) -> (Vec<Violation>, RunStats) {
                         Ok(None)
                     },
                     CUSTOM_OUT => {
-                        let mut u = <SimVec<i32> as Vec1<i32>>::uninit(v.len());
-                        let r: Option<SimVec<i32>> = v.rolling_custom(
+                        let n_series = v.len();
+                        let mut u = <SimVec<i32> as Vec1<i32>>::uninit((n_series as i64 + buf_delta).max(0) as usize);
+                        let res = guarded(|| {
+                            let r: Option<SimVec<i32>> = v.rolling_custom(
                             w,
                             |s: std::collections::vec_deque::Iter<'_, f64>| ExactSizeIterator::len(&s) as i32,
                             Some(<SimVec<i32> as Vec1<i32>>::uninit_ref_mut(&mut u)),
                         );
-                        Ok(Some(buf_report(u, r.is_some())))
+                            r.is_some()
+                        });
+                        Ok(Some(buf_report(u, res, n_series)))
                     },
                     CUSTOM2_OUT => {
-                        let mut u = <SimVec<i32> as Vec1<i32>>::uninit(v.len());
-                        let r: Option<SimVec<i32>> = v.rolling2_custom(
+                        let n_series = v.len();
+                        let mut u = <SimVec<i32> as Vec1<i32>>::uninit((n_series as i64 + buf_delta).max(0) as usize);
+                        let res = guarded(|| {
+                            let r: Option<SimVec<i32>> = v.rolling2_custom(
                             &o,
                             w,
                             |a: std::collections::vec_deque::Iter<'_, f64>,
@@ -740,7 +757,9 @@ pub fn check_roll(r: &Roll) -> (Vec<Violation>, RunStats) {
                             },
                             Some(<SimVec<i32> as Vec1<i32>>::uninit_ref_mut(&mut u)),
                         );
-                        Ok(Some(buf_report(u, r.is_some())))
+                            r.is_some()
+                        });
+                        Ok(Some(buf_report(u, res, n_series)))
                     },
                     5 => {
                         let _: SimVec<i32> = v
@@ -774,23 +793,31 @@ pub fn check_roll(r: &Roll) -> (Vec<Violation>, RunStats) {
                 let o = SimVec::from_vec(other);
                 match driver {
                     CUSTOM_OUT => {
-                        let mut u = <SimVec<i32> as Vec1<i32>>::uninit(v.items.len());
-                        let r: Option<SimVec<i32>> = v.rolling_custom(
+                        let n_series = v.items.len();
+                        let mut u = <SimVec<i32> as Vec1<i32>>::uninit((n_series as i64 + buf_delta).max(0) as usize);
+                        let res = guarded(|| {
+                            let r: Option<SimVec<i32>> = v.rolling_custom(
                             w,
                             |s: &[f64]| s.len() as i32,
                             Some(<SimVec<i32> as Vec1<i32>>::uninit_ref_mut(&mut u)),
                         );
-                        Ok(Some(buf_report(u, r.is_some())))
+                            r.is_some()
+                        });
+                        Ok(Some(buf_report(u, res, n_series)))
                     },
                     CUSTOM2_OUT => {
-                        let mut u = <SimVec<i32> as Vec1<i32>>::uninit(v.items.len());
-                        let r: Option<SimVec<i32>> = v.rolling2_custom(
+                        let n_series = v.items.len();
+                        let mut u = <SimVec<i32> as Vec1<i32>>::uninit((n_series as i64 + buf_delta).max(0) as usize);
+                        let res = guarded(|| {
+                            let r: Option<SimVec<i32>> = v.rolling2_custom(
                             &o,
                             w,
                             |a: &[f64], b: &[f64]| (a.len() + b.len()) as i32,
                             Some(<SimVec<i32> as Vec1<i32>>::uninit_ref_mut(&mut u)),
                         );
-                        Ok(Some(buf_report(u, r.is_some())))
+                            r.is_some()
+                        });
+                        Ok(Some(buf_report(u, res, n_series)))
                     },
                     d => unit(drive(&v, &o, d, w)),
                 }
@@ -823,19 +850,41 @@ pub fn check_roll(r: &Roll) -> (Vec<Violation>, RunStats) {
         Ok(Ok(None)) => {},
         Ok(Ok(Some(b))) => {
             // C19, buffer clause: the lazy iterator written into the caller's buffer fills
-            // every slot exactly once and nothing else
+            // every slot exactly once (broadcasting a single result), or the mismatch is
+            // refused without any slot having been written
             st.hit("rolling_lazy_iterator_written_into_caller_buffer");
+            let (m, bl) = (b.series, b.len);
+            let want_ok = bl == 0 || m == bl || m == 1;
             let mut seen = b.log.clone();
             seen.sort();
-            let want: Vec<usize> = (0..b.len).collect();
-            if !b.oob.is_empty() || !b.twice.is_empty() || b.holes > 0 || seen != want || b.returned_some {
+            let all: Vec<usize> = (0..bl).collect();
+            let mut bad: Option<String> = None;
+            if !b.oob.is_empty() || !b.twice.is_empty() {
+                bad = Some("uset out of bounds or twice".into());
+            } else if want_ok {
+                if let Some(msg) = &b.refused {
+                    bad = Some(format!("the write was refused: {msg}"));
+                } else if bl > 0 && (seen != all || b.holes > 0) {
+                    bad = Some("not every slot was written exactly once".into());
+                } else if b.returned_some {
+                    bad = Some("a container was returned although a buffer was given".into());
+                }
+            } else {
+                st.fault(if m < bl { "len_mismatch_short" } else { "len_mismatch_long" });
+                if b.refused.is_none() {
+                    bad = Some("a length mismatch was not reported".into());
+                } else if !b.log.is_empty() {
+                    bad = Some("a length mismatch was reported after slots had been written".into());
+                }
+            }
+            if let Some(why) = bad {
                 viol.push(Violation {
                     props: vec!["C19"],
                     oracle: "K4",
                     stage: format!("{stage}<out buffer>"),
                     detail: format!(
-                        "buffer of length {}: uset calls at {:?}, out of bounds {:?}, written twice {:?}, never written {}, returned Some = {}",
-                        b.len, b.log, b.oob, b.twice, b.holes, b.returned_some
+                        "series of {m} items, buffer of length {bl}: {why} (uset calls at {:?}, out of bounds {:?}, twice {:?}, never written {}, refused {:?})",
+                        b.log, b.oob, b.twice, b.holes, b.refused
                     ),
                 });
             }
